@@ -1724,3 +1724,7 @@ Proof.
     + exists [[40]; [120]; [41]]%N. split; [reflexivity|]. repeat constructor; discriminate.
   - eexists. split; [reflexivity|]. vm_compute. split; [discriminate|reflexivity].
 Qed.
+
+Lemma vi_motion_total_wf b rows top cl cc pc has cnt k row off : buf_wf b -> vpos b row off ->
+  vi_motion b rows top cl cc pc has cnt k row off <> MvFuel.
+Proof. intros HW. apply vi_motion_total, buf_wf_ne, HW. Qed.
